@@ -541,6 +541,69 @@ func jobTriples(c *rt.Ctx, prop string, zip bool) {
 			}
 		}
 	}
+	// dense message lengths: EVERY length 0..8320 (C05: every 4th) and windows around 16384, 32768, 65536
+	// under pure, a 1-byte and a 255-byte context: the honest signature, the message extended by one
+	// byte / by 32 bytes, shortened by one byte, its last and first byte changed - alone and (every 4th
+	// length) as a member of a batch of 5. Whatever buffering the hashing of R || A || M uses, every
+	// total length across 2048, 4096 and 8192 is met.
+	c.Require("dense-msglen")
+	shortFillers = true
+	var dl []int
+	step, thin := 1, 8
+	if prop == "C05" {
+		step = 4
+	}
+	if c.Thorough() {
+		thin = 1
+	} else if c.Config != "default" && c.Config != "" {
+		step = 8 // quick tier: the hashing front end is configuration-independent code
+	}
+	for l := 0; l <= 8320; l += step {
+		dl = append(dl, l)
+	}
+	for _, m := range []int{16384, 32768, 65536} {
+		for l := m - 330; l <= m+40; l += step {
+			dl = append(dl, l)
+		}
+	}
+	for li, l := range dl {
+		for vi, vs := range []variantSpec{vPure, vCtx, {ref.Ctx, strings.Repeat("k", 255)}} {
+			if !c.Take() {
+				continue
+			}
+			c.Distinct(fmt.Sprintf("dense %d %d", l, vi), true)
+			c.Class("dense-msglen")
+			seed := seedOf(900 + li%5)
+			msg := msgLen(l, li)
+			base := triple{ref.Public(seed), msg, ref.Sign(seed, msg, vs.v, []byte(vs.ctx))}
+			var shapes []batchShape
+			if l%(4*thin) == 0 {
+				shapes = []batchShape{{li % 5, 5}}
+			}
+			one := []batchShape{{li % 5, 5}}
+			if c.Config != "default" && c.Config != "" && !c.Thorough() {
+				one = shapes
+			}
+			compareTriple(c, prop, base, vs, zip, "dense-msglen-honest", one)
+			alt := func(name string, m []byte) {
+				compareTriple(c, prop, triple{base.key, m, base.sig}, vs, zip, "dense-msglen-"+name, shapes)
+			}
+			compareTriple(c, prop, triple{base.key, append(append([]byte{}, msg...), byte(l)), base.sig}, vs, zip, "dense-msglen-plus1", one)
+			if l%thin == 0 && ((l/thin+vi)%4 == 0 || vi == 0) {
+				alt("plus32", append(append([]byte{}, msg...), msgLen(32, l)...))
+				if l > 0 {
+					alt("minus1", msg[:l-1])
+					m := append([]byte{}, msg...)
+					m[l-1] ^= 0x80
+					alt("last-byte", m)
+					m = append([]byte{}, msg...)
+					m[0] ^= 1
+					alt("first-byte", m)
+				}
+			}
+		}
+	}
+	shortFillers = false
 	if prop == "C05" {
 		jobC05SmallOrderProduct(c)
 	}
